@@ -1562,7 +1562,7 @@ _INHERIT_ATTRIB_HANDLERS = {
     "display": _inherit_nondefault_display,
     "fill": _inherit_copy,
     "fill-rule": _inherit_copy,
-    "style": _inherit_copy,
+    "style": _do_not_inherit,
     "transform": _inherit_matrix_multiply,
     "stroke": _inherit_copy,
     "stroke-width": _inherit_copy,
